@@ -1,5 +1,5 @@
 use crate::{
-    cfg::Cfg,
+    cfg::{Cfg, RegisterSet},
     parser::{HasRegisterSets, InstructionProperties, Register},
     passes::{DiagnosticManager, LintError, LintPass},
 };
@@ -13,7 +13,10 @@ impl LintPass for GarbageInputValueCheck {
         for node in cfg {
             if node.is_program_entry() {
                 // get registers
-                let garbage = node.live_in() - Register::program_args_set();
+                // The program starts with its arguments and with a stack
+                let garbage = node.live_in()
+                    - Register::program_args_set()
+                    - [Register::X2].into_iter().collect::<RegisterSet>();
                 if !garbage.is_empty() {
                     let mut ranges = Vec::new();
                     for reg in &garbage {
